@@ -53,6 +53,7 @@ type Case struct {
 	Finalized bool      `json:"finalized,omitempty"`
 	Ops       []ChainOp `json:"ops,omitempty"`
 	Genesis   bool      `json:"genesis_ops,omitempty"`
+	SnapTx    *SnapTx   `json:"snaptx,omitempty"`
 }
 
 // classes named by the property text
@@ -328,6 +329,8 @@ func run(c *vh.Ctx, e *env, cs Case) {
 		}
 	case "chain":
 		runChain(c, cs)
+	case "snaptx":
+		runSnapTx(c, cs)
 	}
 }
 
@@ -541,7 +544,7 @@ func runChain(c *vh.Ctx, cs Case) {
 
 func main() {
 	c := vh.Start("C28")
-	c.Rep.Rule = "type: every input-kind prefix x output type list (distinct by shape); kernel/refs: random snapshots of 1-4 members over all classes on a mainnet-genesis node and a private-genesis node (distinct by full case; non-trivial = found map non-empty / consensus-class member); chain: sequences of 4-12 recorded operations with random references and timestamps on a fresh store (non-trivial = at least one operation extended the chain)"
+	c.Rep.Rule = "type: every input-kind prefix x output type list (distinct by shape); kernel/refs: random snapshots of 1-4 members over all classes on a mainnet-genesis node and a private-genesis node (distinct by full case; non-trivial = found map non-empty / consensus-class member); snaptx: a consensus-class operation already in persistent storage re-proposed through validateSnapshotTransaction in a batch (both hash orders), with a stale reference, or not later (distinct by kind x scenario x members); chain: sequences of 4-12 recorded operations with random references and timestamps on a fresh store (non-trivial = at least one operation extended the chain)"
 	e := &env{}
 	defer e.close()
 	if c.Replay != "" {
@@ -554,6 +557,10 @@ func main() {
 	for _, cs := range corpus(e) {
 		run(c, e, cs)
 	}
+	for _, cs := range snapCorpus() {
+		run(c, e, cs)
+	}
 	generate(c, e)
+	snapGenerate(c)
 	c.Finish()
 }
